@@ -343,6 +343,116 @@ def r87(repo, ctx, index):
               construct=U.src(stmt))
 
 
+# ---------------------------------------------------------------------------------------------- R8.8 recording widths
+class _Unknown(Exception):
+    pass
+
+
+def _shape(term, env):
+    k = term[0]
+    if k == 'mut':
+        return _shape(term[1], env)
+    if k == 'call' and term[1] in ('np.zeros', 'np.ones', 'np.empty'):
+        a = term[2][0]
+        dims = a[1:] if a[0] == 'tuple' else (a,)
+        return [_ival(d, env) for d in dims]
+    if k == 'call' and term[1] == 'np.pad':
+        base = _shape(term[2][0], env)
+        w = term[2][1]
+        if w[0] == 'tuple' and all(isinstance(x, tuple) and x[0] == 'tuple' for x in w[1:]):
+            pairs = [(x[1], x[2]) for x in w[1:]]
+        elif w[0] == 'tuple' and len(w) == 3:
+            pairs = [(w[1], w[2])]
+        else:
+            raise _Unknown(f'pad widths {show(w)[:40]}')
+        if len(pairs) != len(base):
+            raise _Unknown('pad rank')
+        return [b + _ival(p0, env) + _ival(p1, env) for b, (p0, p1) in zip(base, pairs)]
+    raise _Unknown(f'shape of {show(term)[:50]}')
+
+
+def _ival(term, env):
+    k = term[0]
+    if k == 'const' and isinstance(term[1], int) and not isinstance(term[1], bool):
+        return term[1]
+    if k == 'old':
+        if term[1] not in env:
+            raise _Unknown(f'field {term[1]}')
+        return env[term[1]]
+    if k == 'op' and term[1] in ('Add', 'Sub', 'Mult'):
+        a, b = _ival(term[2], env), _ival(term[3], env)
+        return a + b if term[1] == 'Add' else a - b if term[1] == 'Sub' else a * b
+    if k == 'call' and term[1] in ('max', 'np.amax', 'np.maximum', 'min', 'np.amin', 'np.minimum'):
+        args = term[2]
+        if len(args) == 1 and args[0][0] == 'tuple':
+            args = args[0][1:]
+        vals = [_ival(a, env) for a in args]
+        return max(vals) if 'max' in term[1] else min(vals)
+    if k == 'sub' and term[1][0] == 'attr' and term[1][2] == 'shape' and term[2][0] == 'const':
+        return _shape(term[1][1], env)[term[2][1]]
+    raise _Unknown(f'integer value of {show(term)[:50]}')
+
+
+def _symbols(term, out):
+    if isinstance(term, tuple):
+        if term and term[0] == 'old' and isinstance(term[1], str):
+            out.add(term[1])
+        for x in term:
+            _symbols(x, out)
+    return out
+
+
+def r88(repo, ctx, index):
+    """recording: every np.pad of the recorded arrays has non-negative widths, for every relative order of the class counts
+    involved (decided on the order domain: the widths are max/plus expressions of bins, maxBins and array widths with unit
+    coefficients, so one representative per ordering-with-gaps is exhaustive)"""
+    import itertools
+    sx = SymExec(repo, index, KEY)
+    en = repo.func(PB, f'{CLS}.enableRecording')
+    rec = repo.func(PB, f'{CLS}.record')
+    starts = [o for o in sx.run(en) if o.status != 'raise']
+    n = 0
+    for ad in (True, False):
+        for o0 in starts:
+            flds = dict(o0.fields)
+            flds['_adaptiveBinSize'] = const(ad)
+            # two consecutive updates: the second starts from the arrays the first produced
+            first = [o for o in sx.run(rec, fields=dict(flds)) if o.status != 'raise']
+            second = []
+            for o1 in first:
+                f2 = dict(o1.fields)
+                f2['_adaptiveBinSize'] = const(ad)
+                second += [o for o in sx.run(rec, fields=f2) if o.status != 'raise']
+            for tag, outs in (('first', first), ('second', second)):
+                for o in outs:
+                    pads = [a for nm, a in o.calls if nm == 'np.pad']
+                    for a in pads:
+                        n += 1
+                        syms = sorted(_symbols(a, set()))
+                        bad = None
+                        try:
+                            for vals in itertools.product(range(1, len(syms) + 3), repeat=len(syms)):
+                                env = dict(zip(syms, vals))
+                                w = a[1]
+                                pairs = [(x[1], x[2]) for x in w[1:]] if all(isinstance(x, tuple) and x[0] == 'tuple' for x in w[1:]) else [(w[1], w[2])]
+                                for p0, p1 in pairs:
+                                    if _ival(p0, env) < 0 or _ival(p1, env) < 0:
+                                        bad = env
+                                        break
+                                if bad:
+                                    break
+                        except _Unknown as e:
+                            ctx.undecided('R8.8', PB, f'{CLS}.record', rec, f'pad width not evaluable on the order domain: {e}')
+                            continue
+                        ctx.analysed['scenarios'] += (len(syms) + 2) ** len(syms)
+                        ctx.check(bad is None, 'R8.8', PB, f'{CLS}.record', rec,
+                                  f'{tag} recorded update, adaptive={ad}: pad widths of {show(a[0])[:40]} are non-negative for every ordering of {syms}',
+                                  f'{tag} recorded update with adaptive binning {"on" if ad else "off"}: np.pad gets a negative width for {bad} '
+                                  f'(widths {show(a[1])[:120]}): recording a population balance crashes in this configuration',
+                                  construct=f'record[adaptive={ad}, {tag}]: {show(a[1])[:100]}')
+    ctx.floor('R8.8', n, 8)
+
+
 def check(repo, ctx, index, purity):
     ctx.explanation = EXPLANATION
     ctx.assumptions += ['numpy semantics of linspace/histogram(bin edges returned unchanged)/append as tabulated',
@@ -351,3 +461,4 @@ def check(repo, ctx, index, purity):
     states = r82(repo, ctx, index)
     r83_r86(repo, ctx, index, states)
     r87(repo, ctx, index)
+    r88(repo, ctx, index)
